@@ -1,3 +1,7 @@
+// The library's go.mod says go 1.22: in a program whose main module says the same, timer channels are still buffered and Reset/Stop do
+// not discard a tick that has fired (GODEBUG asynctimerchan=1). This module says go 1.23, so the check asks for the library's own setting.
+//
+//go:debug asynctimerchan=1
 package c19
 
 import (
